@@ -360,7 +360,10 @@ Theorem c17_renumbering_documented_equation :
 Proof. exact RenumberResults.doc_cell_renum_lemma. Qed.
 Print Assumptions c17_renumbering_documented_equation.
 
-Theorem c17_renumbering_applied_S :
+(* PARTIAL (review round 2, M2): the original side is the documented equation (doc_cell = 0), not q_apply of the original data;
+   e' is ANY vector with the permuted-and-scaled property; nothing is said about when the renumbered apply succeeds.
+   Full statement wanted: q_apply e m = AOk _ _ s -> q_apply e' (renum m) = AOk _ _ (renum s) for e' = the renumbered solved terms. *)
+Theorem c17_renumbering_applied_S_partial :
   forall (ty : caltype) (n : nat) (p q : nat -> nat) (e e' m s : list QcI.qi) (ci : QcI.qi),
   RenumberModel.renum_type ty = true -> RenumberModel.is_renum n p q -> Peano.le 1%nat n ->
   length m = Nat.mul n n -> length s = Nat.mul n n ->
@@ -373,7 +376,7 @@ Theorem c17_renumbering_applied_S :
   forall a b x, CalQI.q_apply ty n n e' (RenumberModel.renum_cells n q m QcI.qi0) = CalQI.AOk a b x ->
   x = RenumberModel.renum_cells n q s QcI.qi0.
 Proof. exact RenumberResults.renum_apply_lemma. Qed.
-Print Assumptions c17_renumbering_applied_S.
+Print Assumptions c17_renumbering_applied_S_partial.
 
 (* non-vacuity (statements in coq/Cal/RenumberResultsEx.v, decided by vm_compute): T8 2x2, ports swapped, true terms
    Ts = diag(2, 3), Ti = diag(1/2, 1/3), Tx = 0, Tm = diag(1, 5), standards through, (short, i), (i, 1/2), (1/2, short):
